@@ -118,3 +118,17 @@ Theorem redundant_condition_sound : forall supp_true media_true earlier later,
   map ic_layer (firstn (length later) earlier) = map ic_layer later.
 Proof. exact redundant_sound_all. Qed.
 Print Assumptions redundant_condition_sound.
+
+From V Require Import C12.Box.
+(* PARTIAL (of box_collapse_same_sides): the shorthand value compactTokenQuad
+   builds re-expands (expandTokenQuad / CSS Box 4) to exactly the four sides it
+   was built from, and no shorter value does.  Missing: boxTracker's bookkeeping
+   (which longhands are dropped, unit safety, the !important reset), which is
+   tied by the oracle glue stream only. *)
+Theorem box_collapse_same_sides_partial : forall q, expand_quad (compact_quad q) = Some q.
+Proof. exact box_quad_roundtrip_all. Qed.
+Print Assumptions box_collapse_same_sides_partial.
+
+Theorem box_collapse_shortest : forall q l, expand_quad l = Some q -> (length (compact_quad q) <= length l)%nat.
+Proof. exact box_quad_shortest_all. Qed.
+Print Assumptions box_collapse_shortest.
